@@ -5,6 +5,8 @@ use crate::query::Query;
 
 impl Query for Filter {
     fn process<'a, T: Queryable>(&self, state: State<'a, T>) -> State<'a, T> {
+        #[cfg(jsonpath_rust_verif)]
+        crate::verif::point(3);
         let root = state.root;
         state.flat_map(|p| {
             if p.is_internal() {
@@ -50,6 +52,8 @@ impl Filter {
     }
 
     fn filter_item<'a, T: Queryable>(&self, item: Pointer<'a, T>, root: &T) -> bool {
+        #[cfg(jsonpath_rust_verif)]
+        crate::verif::point(4);
         self.process_elem(State::data(root, Data::Ref(item.clone())))
             .ok_val()
             .and_then(|v| v.as_bool())
